@@ -54,12 +54,15 @@ HasBigMap(t) == CASE IsLeaf(t) -> FALSE
                   [] t[1] \in {"option", "list", "set"} -> HasBigMap(t[4])
                   [] OTHER -> HasBigMap(t[4]) \/ HasBigMap(t[5])
 
-\* universe: by depth level; position 0 = inside option / collection (no field annotation, no big_map),
-\* 1 = component of a pair / or (field annotation and big_map allowed), 2 = root (big_map allowed)
-AnnSet(k, pos) == {<<"", "">>} \cup (IF k = 0 THEN {} ELSE {<<"", a>> : a \in TypePool} \cup (IF pos = 1 THEN {<<f, "">> : f \in FieldPool} ELSE {}))
+\* universe: by depth level and exact number k of annotated nodes; position 0 = inside option / collection
+\* (no field annotation, no big_map), 1 = component of a pair / or (field annotation and big_map allowed),
+\* 2 = root (big_map allowed, no field annotation)
+Annots(pos) == {<<"", a>> : a \in TypePool} \cup (IF pos = 1 THEN {<<f, "">> : f \in FieldPool} ELSE {})
+AnnSet(k, pos) == {<<"", "">>} \cup (IF k = 0 THEN {} ELSE Annots(pos))
 Cost(a) == IF a = <<"", "">> THEN 0 ELSE 1
-Leaves(k, pos) == {<<b, a[1], a[2]>> : b \in LeafBases, a \in AnnSet(k, pos)}
-Comp(L, k, pos) ==
+Leaves(k, pos) == IF k = 0 THEN {<<b, "", "">> : b \in LeafBases}
+                  ELSE IF k = 1 THEN {<<b, a[1], a[2]>> : b \in LeafBases, a \in Annots(pos)} ELSE {}
+Comp(L, k, pos) ==   \* composite types with children from level L and exactly k annotated nodes
   UNION {LET k1 == k - Cost(a) IN
            UNION {{<<p, a[1], a[2], l, r>> : l \in L[kl][1], r \in L[k1 - kl][1]} : kl \in 0..k1, p \in BinPrims}
            \cup {<<p, a[1], a[2], x>> : p \in UnPrims \ {"set"}, x \in L[k1][0]}
@@ -67,13 +70,13 @@ Comp(L, k, pos) ==
            \cup UNION {{<<p, a[1], a[2], kt, vt>> : kt \in {y \in L[kl][0] : KeyOK(y)}, vt \in L[k1 - kl][0]}
                        : kl \in 0..k1, p \in (IF pos = 0 THEN MapPrims \ {"big_map"} ELSE MapPrims)}
          : a \in AnnSet(k, pos)}
-Lvl0 == [k \in 0..MaxAnn |-> [pos \in 0..2 |-> Leaves(k, pos)]]
 \* (TLC evaluates every constant definition at start-up, hence the guards)
+Lvl0 == [k \in 0..MaxAnn |-> [pos \in 0..2 |-> Leaves(k, pos)]]
 Lvl1 == IF MaxDepth < 1 THEN <<>> ELSE [k \in 0..MaxAnn |-> [pos \in 0..2 |-> Lvl0[k][pos] \cup Comp(Lvl0, k, pos)]]
 Lvl2 == IF MaxDepth < 2 THEN <<>> ELSE [k \in 0..MaxAnn |-> [pos \in 0..2 |-> Lvl0[k][pos] \cup Comp(Lvl1, k, pos)]]
 Lvl3 == IF MaxDepth < 3 THEN <<>> ELSE [k \in 0..MaxAnn |-> [pos \in 0..2 |-> Lvl0[k][pos] \cup Comp(Lvl2, k, pos)]]
-GenUniverse == CASE MaxDepth = 0 -> Lvl0[MaxAnn][2] [] MaxDepth = 1 -> Lvl1[MaxAnn][2]
-                 [] MaxDepth = 2 -> Lvl2[MaxAnn][2] [] OTHER -> Lvl3[MaxAnn][2]
+Top == CASE MaxDepth = 0 -> Lvl0 [] MaxDepth = 1 -> Lvl1 [] MaxDepth = 2 -> Lvl2 [] OTHER -> Lvl3
+GenUniverse == UNION {Top[k][2] : k \in 0..MaxAnn}
 
 \* ---------------------------------------------------------------- layout (declarative)
 Flattenable(c) == c[1] = "pair" /\ c[2] = "" /\ c[3] = ""
